@@ -42,7 +42,7 @@ type shape struct {
 	canceller bool // a task cancels ctx
 	preCancel bool // ctx cancelled before Shutdown is called
 	syncToo   bool // an extra synchronous handler on a
-	pubCancel int  // publishes use a context: 1 = cancelled before the publish, 2 = cancelled by a task at an explored point, 3 = like 2 but only the first publish uses it, the later ones a live context
+	pubCancel int  // publishes use a context: 1 = cancelled before the publish, 2 = cancelled by a task at an explored point, 3 = like 2 but only the first publish uses it, the later ones a live context, 4 = a caller-defined context detached from an already cancelled parent (live)
 	seq       bool // the async handlers are Sequential too
 	persistT  bool // the bus has a store and a (generous) persistence timeout: neither may touch what the handlers are given
 	onceFirst bool // a synchronous Once handler is registered before the async handlers (it retires during the first publish while another publish may be walking the list)
@@ -50,6 +50,15 @@ type shape struct {
 	shards    int  // 0: outer and nested event types share a routing shard; 1: nested type in another shard; 2: the same with the roles of the two types swapped
 	twice     bool // after the first Shutdown returned (whatever it returned) and the bus went idle, publish again and call Shutdown with a live context
 }
+
+// detachedCtx keeps its parent's values and none of its cancellation (the shape of
+// context.WithoutCancel, written by a caller): never done, so live by the interface's contract.
+type detachedCtx struct{ parent context.Context }
+
+func (detachedCtx) Deadline() (time.Time, bool) { return time.Time{}, false }
+func (detachedCtx) Done() <-chan struct{}       { return nil }
+func (detachedCtx) Err() error                  { return nil }
+func (d detachedCtx) Value(k any) any           { return d.parent.Value(k) }
 
 type inst struct {
 	s      shape
@@ -127,10 +136,14 @@ func (in *inst) Body() {
 	}
 	pctx, pcancel := context.WithCancel(context.Background())
 	defer pcancel()
-	if s.pubCancel == 1 {
+	if s.pubCancel == 1 || s.pubCancel == 4 {
 		pcancel()
 	}
-	if s.pubCancel >= 2 {
+	var pubCtx context.Context = pctx
+	if s.pubCancel == 4 {
+		pubCtx = detachedCtx{pctx}
+	}
+	if s.pubCancel == 2 || s.pubCancel == 3 {
 		vrt.Go(func() {
 			vrt.Point()
 			in.rec.Add("pcancel", 0, 0, "")
@@ -142,7 +155,7 @@ func (in *inst) Body() {
 			id := 10 + i
 			in.rec.Add("call", id, 0, "")
 			if s.pubCancel != 0 && (s.pubCancel != 3 || i == 0) {
-				A.PubCtx(bus, pctx, id)
+				A.PubCtx(bus, pubCtx, id)
 			} else {
 				A.Pub(bus, id)
 			}
@@ -264,7 +277,7 @@ func (in *inst) Check(res *vrt.Result) []vrt.Violation {
 			id -= 1000
 		}
 		switch in.s.pubCancel {
-		case 0:
+		case 0, 4:
 			return false
 		case 3:
 			return id == 10
@@ -453,6 +466,9 @@ func shapes(thorough bool) []shape {
 		{name: "wait/two-waiters", pubs: 1, waiters: 1, nested: true},
 		{name: "wait/sync+async", pubs: 2, syncToo: true},
 		{name: "wait/publish-ctx-precancelled", pubs: 2, twoH: true, pubCancel: 1},
+		{name: "wait/publish-ctx-detached-from-a-cancelled-parent", pubs: 2, twoH: true, pubCancel: 4},
+		{name: "wait/sequential-publish-ctx-detached-from-a-cancelled-parent", pubs: 2, seq: true, nested: true, pubCancel: 4},
+		{name: "shutdown/publish-ctx-detached-from-a-cancelled-parent", pubs: 2, shutdown: true, pubCancel: 4},
 		{name: "wait/publish-ctx-cancel-race", pubs: 2, nested: true, pubCancel: 2},
 		{name: "shutdown/publish-ctx-cancel-race", pubs: 1, shutdown: true, pubCancel: 2},
 		{name: "wait/sequential-first-publish-ctx-cancelled-later-live", pubs: 2, seq: true, pubCancel: 3},
